@@ -2,36 +2,25 @@
  *
  * sort_replace(arr, n, old, new): arr sorted (non-decreasing), old occurs in arr.  Returns only if
  * old != new (dies otherwise); then
- *   - arr is sorted again,
- *   - positional description: with P = first position of old and Q = the position new lands on
- *     (old < new: last cell <= new; new < old: first cell > new), the result is the input with cell P
- *     removed, the cells between P and Q shifted by one towards P, and new stored at Q; every cell
- *     outside [min(P,Q), max(P,Q)] is untouched ("only the rows needed"),
- *   - multiset: for an arbitrary value g_v, count(g_v) changes by exactly -[g_v == old] + [g_v == new].
+ *   - arr is sorted again (every adjacent pair, observer g_i),
+ *   - positional description (observer g_k): with P = first position of old and Q = the position new
+ *     lands on (old < new: last cell <= new; new < old: first cell > new), the result is the input with
+ *     cell P removed, the cells between P and Q shifted by one towards P, and new stored at Q; every cell
+ *     outside [min(P,Q), max(P,Q)] is untouched ("updates only the rows needed"),
+ *   - multiset (observer g_v): count(g_v) changes by exactly -[g_v == old] + [g_v == new].
  *
- * The precondition "arr is sorted" is universally quantified and the loops stop at data-dependent
- * positions, so a single-cell observer is NOT enough on the input side: the proof needs the hypothesis at
- * positions that only the execution determines.  The universal facts (sorted input, sorted loop
- * invariant, count) are therefore written with CONSTANT-bound quantifiers / sums over SR_NMAX cells,
- * which the SAT back end expands; every proved fact about single cells uses ghost observers.
- * Two proofs of the same contract:
- *   sort_replace_lc_*  loop contracts (loops/c20_sort.json), no unwinding, n <= SR_NMAX (large)
- *   sort_replace_uw_*  plain unwinding of the real loops, n <= SR_NMAX (small), independent of the invariants */
+ * BOUNDED stand-in: one group per array size SR_N (the real loops are unwound).  Why not unbounded: the
+ * precondition "arr is sorted" is universally quantified and both loops stop at data-dependent positions,
+ * so the proof needs the hypothesis at cells that only the execution determines; a single-cell observer
+ * can name proved facts but not this assumption.  Loop contracts with constant-bound quantifiers (expanded
+ * by SAT) were proved for n = 4 and n = 8 but cost more than unwinding (171 s vs 65 s at n = 8 / n = 6);
+ * symbolic-size arrays of int64 cells run out of memory in CBMC's propositional reduction, hence one
+ * constant-size typed object per group (allocated by the harness: int64_t[SR_N], exact bounds checks). */
 #include "prelude.h"
 #include "sort.c"          /* the real /repo/src/emu/sort.c */
 
-#ifndef SR_NMAX
-#define SR_NMAX 8
-#endif
-
-/* SR_NMIN == SR_NMAX: one array size per group, the object has a constant size */
-#ifndef SR_NMIN
-#define SR_NMIN 1
-#endif
-#if SR_NMIN == SR_NMAX || defined(SR_BIGOBJ)
-#define SR_ALLOC (SR_NMAX * sizeof(int64_t))
-#else
-#define SR_ALLOC ((size_t) n * sizeof(int64_t))
+#ifndef SR_N
+#define SR_N 4             /* the array size of this group */
 #endif
 
 /* ghosts */
@@ -40,29 +29,20 @@ long g_i;                            /* sortedness observer: adjacent pair (g_i,
 long g_k; int64_t g_vk, g_vk1, g_vkm1; /* positional observer: cell g_k and the pre-state of cells g_k, g_k+1, g_k-1 */
 int64_t g_v; long g_cnt;             /* counting observer: value g_v occurs g_cnt times in the input */
 
-#ifdef SR_NO_FORALL
-#define S1(a, n, k) (!((k) + 1 < (n)) || (a)[(k)] <= (a)[(k) + 1])
-#define SORTED_ADJ(a, n) (S1(a, n, 0) && S1(a, n, 1) && S1(a, n, 2) && S1(a, n, 3) && S1(a, n, 4) && S1(a, n, 5) && S1(a, n, 6))
-#else
-#define SORTED_ADJ(a, n) __CPROVER_forall { long k_; (0 <= k_ && k_ < SR_NMAX - 1) ==> (!(k_ + 1 < (n)) || (a)[k_] <= (a)[k_ + 1]) }
-#endif
+/* constant bound: expanded by the SAT back end */
+#define SORTED_ADJ(a, n) __CPROVER_forall { long k_; (0 <= k_ && k_ < SR_N - 1) ==> (!(k_ + 1 < (n)) || (a)[k_] <= (a)[k_ + 1]) }
 
-/* count of v in a[0..n): constant-bound sum (SR_NMAX terms) */
+/* count of v in a[0..n): constant-bound sum */
 #define C1(a, n, v, k) ((long) ((k) < (n) && (a)[(k)] == (v)))
 #define C4(a, n, v, k) (C1(a, n, v, k) + C1(a, n, v, (k) + 1) + C1(a, n, v, (k) + 2) + C1(a, n, v, (k) + 3))
-#define C16(a, n, v, k) (C4(a, n, v, k) + C4(a, n, v, (k) + 4) + C4(a, n, v, (k) + 8) + C4(a, n, v, (k) + 12))
-#if SR_NMAX <= 4
+#if SR_N <= 4
 #define COUNT(a, n, v) C4(a, n, v, 0)
-#elif SR_NMAX <= 8
+#elif SR_N <= 8
 #define COUNT(a, n, v) (C4(a, n, v, 0) + C4(a, n, v, 4))
-#elif SR_NMAX <= 16
-#define COUNT(a, n, v) C16(a, n, v, 0)
-#elif SR_NMAX <= 32
-#define COUNT(a, n, v) (C16(a, n, v, 0) + C16(a, n, v, 16))
-#elif SR_NMAX <= 64
-#define COUNT(a, n, v) (C16(a, n, v, 0) + C16(a, n, v, 16) + C16(a, n, v, 32) + C16(a, n, v, 48))
+#elif SR_N <= 12
+#define COUNT(a, n, v) (C4(a, n, v, 0) + C4(a, n, v, 4) + C4(a, n, v, 8))
 #else
-#error "SR_NMAX > 64: extend COUNT"
+#error "SR_N > 12: extend COUNT"
 #endif
 
 /* witnesses for replay */
@@ -70,27 +50,29 @@ long w_n, w_p, w_q; int64_t w_old, w_new, w_a0, w_a1, w_a2, w_a3, w_a4, w_a5, w_
 WITNESS(sort_replace);
 #define WCELL(k, w) (!((k) < n) || (w) == arr[(k)])
 
-/* where new lands, as a pre-state fact (existence for every sorted input is immediate; REACH below) */
+/* where new lands, as a pre-state fact (exists for every sorted input; REACH below) */
 #define Q_UP   (g_p <= g_q && g_q < n && arr[g_q] <= new && (g_q == n - 1 || arr[g_q + 1] > new))   /* old < new */
 #define Q_DOWN (0 <= g_q && g_q <= g_p && arr[g_q] > new && (g_q == 0 || arr[g_q - 1] <= new))      /* new < old */
+/* exhaustive split of the input space for the larger sizes: SR_CASE=1 old <= new, SR_CASE=2 new <= old */
+#ifndef SR_CASE
+#define SR_SPLIT 1
+#elif SR_CASE == 1
+#define SR_SPLIT (old <= new)
+#else
+#define SR_SPLIT (new <= old)
+#endif
 
 void c_sort_replace(int64_t *arr, int64_t n, int64_t old, int64_t new)
-#ifdef SR_TYPED
-/* the harness allocates the array as a typed object int64_t[n] (symbolic n): 8-byte cells, no byte
- * reassembly; the contract then only names its extent */
-__CPROVER_requires(SR_NMIN <= n && n <= SR_NMAX && __CPROVER_rw_ok(arr, SR_ALLOC))
-#else
-__CPROVER_requires(SR_NMIN <= n && n <= SR_NMAX && __CPROVER_is_fresh(arr, SR_ALLOC))
-#endif
+/* the harness allocates the array as a typed object int64_t[SR_N]; the contract names its extent */
+__CPROVER_requires(n == SR_N && __CPROVER_rw_ok(arr, SR_N * sizeof(int64_t)))
 __CPROVER_requires(SORTED_ADJ(arr, n))
 /* old is in arr; g_p is its first position */
 __CPROVER_requires(0 <= g_p && g_p < n && arr[g_p] == old && (g_p == 0 || arr[g_p - 1] < old))
 __CPROVER_requires(old == new || (old < new && Q_UP) || (new < old && Q_DOWN))
+__CPROVER_requires(SR_SPLIT)
 /* observers */
 __CPROVER_requires(0 <= g_k && g_k < n && g_vk == arr[g_k] && (g_k + 1 >= n || g_vk1 == arr[g_k + 1]) && (g_k == 0 || g_vkm1 == arr[g_k - 1]))
-#ifndef SR_NO_COUNT
 __CPROVER_requires(g_cnt == COUNT(arr, n, g_v))
-#endif
 __CPROVER_requires(WBIND(sort_replace, w_n == n && w_p == g_p && w_q == g_q && w_old == old && w_new == new &&
 	WCELL(0, w_a0) && WCELL(1, w_a1) && WCELL(2, w_a2) && WCELL(3, w_a3) && WCELL(4, w_a4) && WCELL(5, w_a5) && WCELL(6, w_a6) && WCELL(7, w_a7)))
 __CPROVER_assigns(__CPROVER_object_whole(arr), g_died)
@@ -102,31 +84,31 @@ __CPROVER_ensures(!(0 <= g_i && g_i < n - 1) || arr[g_i] <= arr[g_i + 1])
 __CPROVER_ensures(!(old < new) || arr[g_k] == ((g_k < g_p || g_k > g_q) ? g_vk : (g_k < g_q) ? g_vk1 : new))
 __CPROVER_ensures(!(new < old) || arr[g_k] == ((g_k < g_q || g_k > g_p) ? g_vk : (g_k > g_q) ? g_vkm1 : new))
 /* multiset (arbitrary value g_v) */
-#ifndef SR_NO_COUNT
 __CPROVER_ensures(COUNT(arr, n, g_v) == g_cnt - (g_v == old) + (g_v == new))
-#endif
 ;
 
 void h_sort_replace(void)
 {
-	int64_t *arr; int64_t n, old, new;
+	int64_t n = SR_N, old, new;
 	WITNESS_ON(sort_replace);
-#ifdef SR_TYPED
-	__CPROVER_assume(SR_NMIN <= n && n <= SR_NMAX);
-	arr = malloc(SR_ALLOC);
+	int64_t *arr = malloc(sizeof(int64_t) * SR_N);
 	__CPROVER_assume(arr != NULL);
-#endif
 	sort_replace(arr, n, old, new);
 	REACH("sort_replace returns");
+#if SR_N >= 3
+#if !defined(SR_CASE) || SR_CASE == 1
 	if (w_old < w_new && w_q >= w_p + 2) REACH("old < new, at least two cells shifted down");
-	if (w_old < w_new && w_q == w_p) REACH("old < new, replaced in place");
-	if (w_new < w_old && w_q + 2 <= w_p) REACH("new < old, at least two cells shifted up");
-	if (w_n == SR_NMAX && w_p == 0 && w_q == SR_NMAX - 1) REACH("largest array, old first, new last");
-	if (w_n == SR_NMAX && w_q == 0 && w_p == SR_NMAX - 1) REACH("largest array, old last, new first");
-	if (w_n == 1) REACH("single row");
-	if (w_n >= 3 && w_a0 == w_a1 && w_a1 == w_a2 && w_old == w_a0) REACH("old occurs three times");
-	if (g_v == w_old && g_cnt >= 2) REACH("counting observer on a duplicated old");
+	if (w_p == 0 && w_q == SR_N - 1) REACH("old first, new last");
 	if (w_old < w_new && g_k > w_p && g_k < w_q) REACH("positional observer inside the shifted range");
+#endif
+#if !defined(SR_CASE) || SR_CASE == 2
+	if (w_new < w_old && w_q + 2 <= w_p) REACH("new < old, at least two cells shifted up");
+	if (w_q == 0 && w_p == SR_N - 1) REACH("old last, new first");
+#endif
+	if (w_a0 == w_a1 && w_a1 == w_a2 && w_old == w_a0 && g_v == w_old) REACH("old occurs three times, counted");
+#else
+	if (w_q == w_p) REACH("replaced in place");
+#endif
 }
 
 /* the die direction: old == new never returns */
